@@ -445,7 +445,9 @@ func runC20(w *World) {
 			okAny := false
 			why := ""
 			for j := lo; j <= hi && !okAny; j++ {
-				why = acctStateDiff(am.List(), acctStates[j], checkPw)
+				if why = acctStateDiff(am.List(), acctStates[j], checkPw); why == "" {
+					why = acctLookupDiff(am.Get, acctStates[j])
+				}
 				okAny = why == ""
 			}
 			report("accounts", !okAny, "c20-accounts-wrong-after-"+at, "image %d (%s): loaded accounts match none of the legal states %d..%d (%s)", i, img.Desc, lo, hi, why)
@@ -481,6 +483,8 @@ func runC20(w *World) {
 					if err != nil {
 						failed = fmt.Sprintf("second restart: NewYAMLAccountManager: %v", err)
 					} else if d := acctStateDiff(am2.List(), want, checkPw); d != "" {
+						failed = "second restart: " + d
+					} else if d := acctLookupDiff(am2.Get, want); d != "" {
 						failed = "second restart: " + d
 					}
 				}
@@ -630,6 +634,24 @@ func acctStateDiff(got []hotline.Account, want map[string]acctModel, checkPw fun
 		}
 		if !checkPw(a.Password, m.Pw) {
 			return fmt.Sprintf("%s: stored hash does not verify the password", a.Login)
+		}
+	}
+	return ""
+}
+
+// acctLookupDiff: the value of the account store is also what a login resolves to - every account of the state must be
+// found under its own login (this is the lookup the login path and every account request use).
+func acctLookupDiff(get func(string) *hotline.Account, want map[string]acctModel) string {
+	var ls []string
+	for l := range want {
+		ls = append(ls, l)
+	}
+	sort.Strings(ls)
+	for _, l := range ls {
+		if a := get(l); a == nil {
+			return fmt.Sprintf("account %q is listed but cannot be looked up by its login", l)
+		} else if a.Login != l {
+			return fmt.Sprintf("looking up %q yields the account %q", l, a.Login)
 		}
 	}
 	return ""
